@@ -5,6 +5,7 @@ package ast
 
 import (
 	"io"
+	"slices"
 	"strconv"
 	"strings"
 
@@ -416,12 +417,17 @@ func (ie IfExpression) printElse(out *PrintState) {
 	} else {
 		out.Print(" else ")
 	}
-	if len(ie.Alternative.Statements) == 1 && ie.Alternative.Statements[0].Value().Type() == token.IF {
+	stmts := ie.Alternative.Statements
+	if out.Compact {
+		// comments are not printed in compact mode: else { // c <newline> if b {..} } is an else if.
+		stmts = slices.DeleteFunc(slices.Clone(stmts), isComment)
+	}
+	if len(stmts) == 1 && stmts[0].Value().Type() == token.IF {
 		// else if
 		if out.Compact {
 			out.Print(" ")
 		}
-		ie.Alternative.Statements[0].PrettyPrint(out)
+		stmts[0].PrettyPrint(out)
 		return
 	}
 	ie.Alternative.PrettyPrint(out)
